@@ -8,6 +8,7 @@ mod sym;
 mod rs;
 mod place;
 mod dec;
+mod plan;
 
 use util::*;
 
@@ -22,6 +23,7 @@ fn dispatch(op: &str, a: &[&str]) -> String {
         "gf_misc" => rs::gf_misc(a),
         "generator" => rs::generator(a),
         "rs_decode" => rs::rs_decode(a),
+        "plan" => plan::plan(a),
         "decode_data" => dec::decode_data(a),
         "decode_str" => dec::decode_str(a),
         "read_eci" => dec::read_eci(a),
